@@ -15,3 +15,11 @@ Fixpoint py_c17_tuple_eqb (a b : list Qc) : bool :=
 Definition py_c17_tuple_in (x : list Qc) (l : list (list Qc)) : bool := existsb (py_c17_tuple_eqb x) l.
 (* {} : an empty dictionary viewed as an empty association list (entries [lo; hi; first; last+1]) *)
 Definition py_c17_empty_dict : list (list Qc) := [].
+(* x in l for a list of floats (exact equality) *)
+Definition py_c17_float_in (x : Qc) (l : list Qc) : bool := existsb (Qc_eqb x) l.
+(* l.index(x) on a list of floats: position of the first equal element, ValueError (None) if absent *)
+Fixpoint py_c17_float_index (l : list Qc) (x : Qc) : option Z :=
+  match l with
+  | [] => None
+  | y :: r => if Qc_eqb y x then Some 0%Z else match py_c17_float_index r x with Some k => Some (k + 1)%Z | None => None end
+  end.
